@@ -223,7 +223,7 @@ func realSeq(tc *TableCtx, txn statedb.ReadTxn, q Query) iter.Seq2[*Obj, statedb
 	}
 	var sq statedb.Query[*Obj]
 	if q.Kind.isLPM() {
-		sq = lpmQuery(q.Kind, q.Pfx)
+		sq = lpmQuery(q.Kind, q.Pfx, tc.NetIP)
 	} else {
 		sq = partQuery(q.Kind, q.Key)
 	}
